@@ -423,13 +423,13 @@ def family_fanout(rng, count, max_oracle=2):
                 tgs = deep if deep and rng.random() < 0.8 else inside
                 guarded = rng.random() < 0.2 and g < max_oracle
                 g += guarded
-                trans.append(mk_trans(m[s], m[rng.choice(tgs)], 1, 0, 'oracle' if guarded else 'none',
+                trans.append(mk_trans(m[s], m[rng.choice(tgs)], rng.choice([1, 1, 1, 2]), 0, 'oracle' if guarded else 'none',
                                       act=desc(incx=rng.choice([0, 1]))))
             for s in deep:
                 if rng.random() < 0.6:
                     trans.append(mk_trans(m[s], m[rng.choice(plain)], 2))
-                if rng.random() < 0.3:
-                    trans.append(mk_trans(m[s], m[rng.choice(inside)], 1))
+                if rng.random() < 0.5:      # also: one region leaves the nested orthogonal state while its sibling moves
+                    trans.append(mk_trans(m[s], m[rng.choice(inside)], rng.choice([1, 2, 2])))
         c['trans'] = [t for i, t in enumerate(trans) if t not in trans[:i]]
         for s in range(1, n + 1):
             if rng.random() < 0.5:
